@@ -85,6 +85,7 @@ type Definitions struct {
 	ImplicitLang bool   `json:"implicitLang,omitempty"` // conditions in the definitions-level language do not repeat it
 	FlowOrder    int    `json:"flowOrder,omitempty"`    // document order of the sequenceFlow elements: 0 as created, 1 reversed, 2 odd positions first (the order a node LISTS its outgoing flows in is what counts, not this one)
 	FlowsFirst   bool   `json:"flowsFirst,omitempty"`
+	NodesReversed bool  `json:"nodesReversed,omitempty"` // the flow nodes stand in the document in reverse order of creation (nodes register as event consumers in document order)
 	ExplicitDefaults bool `json:"explicitDefaults,omitempty"` // optional attributes are spelled out with the value BPMN gives them by default (eventGatewayType="Exclusive", gatewayDirection="Unspecified", isInterrupting="true", startQuantity="1", ...)   // the sequenceFlow elements stand in front of the flow nodes
 	Zoo          string `json:"zoo,omitempty"`          // raw XML of a further, non-executable process (and root elements) the engine never runs
 	ctr map[string]int
@@ -96,6 +97,7 @@ var emitImplicitLang string
 // emitFlowOrder / emitFlowsFirst: document order variations in force while a document is being written
 var emitFlowOrder int
 var emitFlowsFirst bool
+var emitNodesReversed bool
 var emitExplicitDefaults bool
 
 // fresh returns a new id with prefix p; every prefix has its own counter, so that adding wrapper
@@ -244,7 +246,14 @@ func (g *Graph) emitBody(b *strings.Builder, ind string) {
 }
 
 func (g *Graph) emitNodes(b *strings.Builder, ind string) {
-	for _, n := range g.Nodes {
+	order := g.Nodes
+	if emitNodesReversed {
+		order = make([]*Node, 0, len(g.Nodes))
+		for i := len(g.Nodes) - 1; i >= 0; i-- {
+			order = append(order, g.Nodes[i])
+		}
+	}
+	for _, n := range order {
 		tag := ""
 		attrs := fmt.Sprintf(` id="%s"`, n.ID)
 		switch n.Kind {
@@ -423,8 +432,8 @@ func (d *Definitions) XML() string {
 		emitImplicitLang = defLang
 		defer func() { emitImplicitLang = "" }()
 	}
-	emitFlowOrder, emitFlowsFirst, emitExplicitDefaults = d.FlowOrder, d.FlowsFirst, d.ExplicitDefaults
-	defer func() { emitFlowOrder, emitFlowsFirst, emitExplicitDefaults = 0, false, false }()
+	emitFlowOrder, emitFlowsFirst, emitExplicitDefaults, emitNodesReversed = d.FlowOrder, d.FlowsFirst, d.ExplicitDefaults, d.NodesReversed
+	defer func() { emitFlowOrder, emitFlowsFirst, emitExplicitDefaults, emitNodesReversed = 0, false, false, false }()
 	b.WriteString(`<bpmn:definitions xmlns:bpmn="http://www.omg.org/spec/BPMN/20100524/MODEL" xmlns:olive="http://olive.io/spec/BPMN/MODEL" xmlns:xsi="http://www.w3.org/2001/XMLSchema-instance" id="Defs" targetNamespace="http://bpmn.io/schema/bpmn" expressionLanguage="` + defLang + `"` + extra + `>` + "\n")
 	sigs := append([]string{}, d.Signals...)
 	sort.Strings(sigs)
